@@ -277,6 +277,9 @@ class MPUChunk:
 
         assert len(spill_data) == bytes_to_write
         assert len(spill_data) >= spill_sz
+        # same range check as flush_rhs: running out of part numbers must fail, not
+        # hand the writer a part number it does not allow
+        assert write.min_part <= self.nextPartId <= write.max_part
 
         self.parts.append(write(self.nextPartId, spill_data))
         self.nextPartId += 1
